@@ -387,6 +387,20 @@ impl Property for C19 {
             Ok(())
         });
 
+        // (b2) well-typed programs from the type-directed generator (C09's): the type of every local
+        // is known by construction and the locals' names are unique in the file, so every other
+        // occurrence of a function-typed local's name is a use that must be tagged `function`, and
+        // no occurrence of a local of a first-order type may be
+        let typed = ctx.tier.pick(12_000, 120_000);
+        ctx.run_streams("c19-typed", typed, 600, |ctx, bytes| {
+            let mut c = Choices::new(bytes);
+            let p = super::c09::gen_program(&mut c, &super::c09::Features::default());
+            if check_typed(ctx, &p)? {
+                ctx.nontrivial(hash_str(&p.ws.files[0].text));
+            }
+            Ok(())
+        });
+
         // (c) through the real server
         if !std::path::Path::new(&crate::engine::lsp::glas_bin()).exists() {
             ctx.inconclusive.push(format!("glas binary not found at {} (run through ./check)", crate::engine::lsp::glas_bin()));
@@ -431,6 +445,83 @@ impl Property for C19 {
         }
         check_real(ctx, &ws, None, &mut c).map(|_| ())
     }
+}
+
+/// Typed programs: uses of function-typed locals are tagged `function`, uses of other locals are not.
+fn check_typed(ctx: &mut Ctx, p: &super::c09::Program) -> Result<bool, Failure> {
+    use super::c09::T;
+    let text = &p.ws.files[0].text;
+    if !syntax::parse_module(text).errors().is_empty() {
+        ctx.excluded("generated program has syntax errors (generator)");
+        return Ok(false);
+    }
+    let case = json!({"typed": true, "workspace": ws_json(&p.ws)});
+    let host = build_host(&p.ws);
+    let an = host.snapshot();
+    let hls = match panics::catch(|| an.syntax_highlight(FileId(0), None)) {
+        Ok(Ok(h)) => h,
+        Ok(Err(_)) => return Ok(false),
+        Err(pn) => return Err(Failure::new(format!("syntax_highlight panicked: {}", pn.message), case).sig("kind", "panic")),
+    };
+    let fun: std::collections::BTreeSet<(usize, usize)> = hls.iter().filter(|h| h.tag == HlTag::Function).map(|h| (u32::from(h.range.start()) as usize, u32::from(h.range.end()) as usize)).collect();
+    let b = text.as_bytes();
+    let is_id = |x: u8| x.is_ascii_alphanumeric() || x == b'_';
+    let mut checked_fn = 0;
+    for bd in p.binders.iter().filter(|bd| bd.fn_params.is_none() && bd.what != "function") {
+        // only locals with a generated (unique) name: letters followed by digits
+        if !bd.name.ends_with(|ch: char| ch.is_ascii_digit()) || p.binders.iter().filter(|o| o.name == bd.name).count() != 1 {
+            continue;
+        }
+        let is_fn = matches!(bd.ty, T::Fn(..));
+        let first_order = matches!(bd.ty, T::Int | T::Float | T::Str | T::Bool | T::List(_) | T::Tuple(_) | T::Adt(..));
+        if !is_fn && !first_order {
+            continue;
+        }
+        let mut from = 0;
+        while let Some(k) = text[from..].find(&bd.name) {
+            let s = from + k;
+            let e = s + bd.name.len();
+            from = e;
+            if (s > 0 && is_id(b[s - 1])) || (e < b.len() && is_id(b[e])) || s == bd.offset {
+                continue;
+            }
+            // a label `name:` or a field `.name` is not a use of the local
+            if s > 0 && b[s - 1] == b'.' {
+                continue;
+            }
+            ctx.eval();
+            let tagged = fun.contains(&(s, e));
+            if is_fn && !tagged {
+                return Err(Failure::new(
+                    format!("the local `{}` ({} at {}) has the type {}: its use at {}..{} must be tagged `function`, it is not. context: …{}…", bd.name, bd.what, bd.offset, bd.ty.show(), s, e, {
+                        let mut lo = s.saturating_sub(60);
+                        while !text.is_char_boundary(lo) {
+                            lo -= 1;
+                        }
+                        clip(&text[lo..], 120)
+                    }),
+                    case,
+                )
+                .sig("kind", "function-local-untagged")
+                .sig("features", bd.tags.join("+")));
+            }
+            if !is_fn && tagged {
+                return Err(Failure::new(
+                    format!("the local `{}` ({} at {}) has the type {}: its use at {}..{} is tagged `function`", bd.name, bd.what, bd.offset, bd.ty.show(), s, e),
+                    case,
+                )
+                .sig("kind", "first-order-local-tagged"));
+            }
+            if is_fn {
+                checked_fn += 1;
+            }
+        }
+    }
+    if checked_fn > 0 {
+        ctx.class("typed program: uses of function-typed locals checked");
+    }
+    ctx.sample("typed", || json!({"text": clip(text, 300)}));
+    Ok(checked_fn > 0)
 }
 
 /// Ask the real server for semantic tokens (full and one range) of the single module of `ws`.
